@@ -129,13 +129,22 @@ def modifyAt {β : Type} (f : β → β) : List β → Nat → List β
   | x :: xs, 0 => f x :: xs
   | x :: xs, i + 1 => x :: modifyAt f xs i
 
-/-- run a list of actions; the driver stops after the last one -/
-def runMachine {σ : Type} (cb : σ → Nat → Nat → σ × Nat) :
+/-- does the remaining posting list contain `doc`? -/
+def containsDoc (p : Postings) (doc : Nat) : Bool := p.any (·.1 == doc)
+
+/-- total score of a document for a CONJUNCTION of the scorers: the sum if every scorer contains
+the document, 0 (no match) otherwise -/
+def interTotal (ps : List Postings) (doc : Nat) : Nat :=
+  if ps.all (containsDoc · doc) then unionTotal ps doc else 0
+
+/-- run a list of actions; the driver stops after the last one. `total` is how the clause scores
+of a document combine (`unionTotal` for a union, `interTotal` for a conjunction). -/
+def runMachine {σ : Type} (cb : σ → Nat → Nat → σ × Nat) (total : List Postings → Nat → Nat) :
     List Action → List Postings → σ × Nat → σ × Nat
   | [], _, st => st
-  | .seek i t :: rest, ps, st => runMachine cb rest (modifyAt (seekP · t) ps i) st
+  | .seek i t :: rest, ps, st => runMachine cb total rest (modifyAt (seekP · t) ps i) st
   | .eval d :: rest, ps, (s, θ) =>
-    runMachine cb rest (ps.map (seekP · (d + 1)))
-      (if θ < unionTotal ps d then cb s d (unionTotal ps d) else (s, θ))
+    runMachine cb total rest (ps.map (seekP · (d + 1)))
+      (if θ < total ps d then cb s d (total ps d) else (s, θ))
 
 end TantivyModel.Wand
